@@ -149,7 +149,9 @@ def gen_case(rng, size=4, source=None):
         header[cols.index("note")] = rng.choice(["taxa", "LANGUAGE", "gloss"])
         kind = "duplicate-canonical"
     case = {"source": source, "kind": kind, "cols": cols, "header": header, "rows": rows,
-            "row": "concept", "col": "doculect", "meta": []}
+            "row": "concept", "col": "doculect", "meta": [],
+            # the Python container of every multi-valued cell of this case (dictionary source only)
+            "multi": rng.choice(["list", "list", "tuple", "tuple", "basictypes"]) if source == "dict" else "list"}
     if rng.random() < 0.3:                    # the two dimensions named by an alias, in lower or upper case
         case["row"], case["col"] = spelling(rng, "concept"), spelling(rng, "doculect")
         if rng.random() < 0.06:
@@ -422,7 +424,9 @@ class Codes:
             return v
         if isinstance(v, str):
             return self.name(v)
-        raise ValueError("cannot code %r" % (v,))
+        # something that must be atomic (a dictionary key, a name) but is not: a code of its own, which no
+        # row carries - the model cannot produce it and the checkers reject it
+        return self.name("<not atomic: %r>" % (v,))
 
     def cell(self, v):
         if isinstance(v, (list, tuple)):
@@ -479,10 +483,26 @@ def decode_dst(x, height):
     return F(x)
 
 
+def mk_multi(case, v):
+    """a multi-valued cell in the container this case uses: list, tuple or a lingpy.basictypes object"""
+    if not isinstance(v, list):
+        return v
+    kind = case.get("multi", "list")
+    if kind == "tuple":
+        return tuple(v)
+    if kind == "basictypes" and v and all(isinstance(x, int) for x in v):
+        from lingpy import basictypes
+        return basictypes.ints(list(v))
+    if kind == "basictypes" and v and all(isinstance(x, str) and x and " " not in x for x in v):
+        from lingpy import basictypes
+        return basictypes.strings(list(v))
+    return list(v)
+
+
 def build_input(case):
     d = {0: list(case["header"])}
     for rid, cells in case["rows"]:
-        d[rid] = [list(c) if isinstance(c, list) else c for c in cells]
+        d[rid] = [mk_multi(case, c) for c in cells]
     for k, v in case.get("meta", []):
         d[k] = list(v) if isinstance(v, list) else v
     return d
@@ -617,16 +637,17 @@ def run_impl(case):
 
                 def f(x, t=t, default=default):
                     r = t.get(key_of(plain(x)), default)
-                    return list(r) if isinstance(r, list) else r
+                    return mk_multi(case, r)
                 wl.add_entries(op["entry"], op["source"], f, override=op["override"])
             elif op["kind"] == "set":
                 v = op["value"]
-                wl[op["id"], op["col"]] = list(v) if isinstance(v, list) else v
+                wl[op["id"], op["col"]] = mk_multi(case, v)
             else:
-                vals = [plain(wl[k, op["source"]]) for k in wl]
-                strs = sorted(set(str(v) for v in vals))
-                distinct = list({key_of(v): v for v in vals}.values())
-                res["skeys"].append({"table": [[v, strs.index(str(v))] for v in distinct],
+                raw = [wl[k, op["source"]] for k in wl]         # str() of the stored objects (tuple, list, ...)
+                vals = [plain(x) for x in raw]
+                strs = sorted(set(str(x) for x in raw))
+                distinct = list({key_of(v): (v, str(x)) for v, x in zip(vals, raw)}.values())
+                res["skeys"].append({"table": [[v, strs.index(sx)] for v, sx in distinct],
                                      "kempty": strs.index("") if "" in strs else -5})
                 wl.renumber(op["source"], op["target"], override=op["override"])
                 target = op["target"] or (op["source"] + "id")
@@ -828,6 +849,7 @@ def classify(case, res):
         out.append("row/col-by-alias")
     if case.get("meta"):
         out.append("meta-collides")
+    out.append("multi=" + case.get("multi", "list"))
     for op in case["ops"]:
         out.append("op=" + op["kind"] + ("-override" if op.get("override") else ""))
     if case.get("focus"):
